@@ -372,6 +372,8 @@ def implementation_line_coverage(prop):
     cov, _coverage = _coverage, None
     try:
         cov.stop()
+        if os.environ.get("ZCV_COVERAGE_SAVE"):
+            cov.save()
         files = []
         for l in open(os.path.join(VERIF, "properties.jsonl")):
             p = json.loads(l)
